@@ -988,6 +988,12 @@ def random_case(rng, tier):
     infinite = rng.random() < 0.25
     names = itertools.count()
     stages = [g_stage(rng, pairs, names, infinite) for _ in range(rng.choice([0, 1, 1, 2, 2, 3, 3, 4]))]
+    if '"count"' in json.dumps(stages):
+        # without copies the results of different branches share the context dictionary of a value, and a Count
+        # anywhere in the pipeline writes into such dictionaries: aliasing is C04's subject, not this property's
+        for st in stages:
+            if st["t"] == "split":
+                st["copy"] = True
     r = rng.random()
     via = "source" if r < 0.2 else ("source_iter" if r < 0.3 else "sequence")
     if infinite:
